@@ -203,7 +203,18 @@ def part_b_driver(cfg, T, mode):
                     if prev is not None and float(got) > float(prev[n]) * (1 + 4 * EPS) + 4 * EPS:
                         raise Violation(f"{PID}/bound-not-monotone", f"{where}: bound of {n!r} increases with delta", {})
                 prev = cb
+            # a caller edits the dicts the explainer handed out (return value, importance_values, variances) in place:
+            # the explainer's later answers must still describe the tracked state
+            private = {k: v for k, v in ex.importance_values.items()}
+            private_var = {k: v for k, v in ex.variances.items()}
+            for handed in (ex.importance_values, ex.variances):
+                for k in list(handed):
+                    handed[k] = 12345
             raw = ex.importance_values
+            if any(not (raw[k] == private[k]) for k in private) or any(not (ex.variances[k] == private_var[k]) for k in private_var):
+                raise Violation(f"{PID}/handed-out-dict-aliases-state", f"{where}: after a caller edited the dict returned by "
+                                f"importance_values / variances in place, the explainer reports {fmtd(dict(raw))} / "
+                                f"{fmtd(dict(ex.variances))} instead of {fmtd(private)} / {fmtd(private_var)}", {})
             for m in ('sum', 'delta'):
                 with np.errstate(all='ignore'):
                     out = ex.get_normalized_importance_values(m)
